@@ -29,8 +29,14 @@ def mk(kind, tag):
 def label(r):
     if isinstance(r, Raw):
         if r.kind == 'N':
+            if r.const == 'fone':
+                return 'ONE'
+            if r.const == 'fnone':
+                return 'MONE'
             return 'N-' if r.sign else 'N+'
         return r.kind
+    if hasattr(r, 'items'):
+        return '(' + ', '.join(label(x) for x in r.items) + ')'
     return repr(r)
 
 
@@ -111,16 +117,92 @@ UNARY = {
     'mpf_nint': lambda s: {s} if s not in ('N+', 'N-') else None,
     'mpf_frac': lambda s: ({'NAN'} if s in ('PINF', 'NINF', 'NAN') else {'Z'} if s == 'Z' else None),
 }
+# documented limits of the elementary functions (C13); only entries that are not in doubt are listed
+def _tab(**kw):
+    return lambda s: kw.get(s)
+
+
+ELEMENTARY = {
+    'mpf_exp': _tab(Z={'ONE'}, PINF={'PINF'}, NINF={'Z'}, NAN={'NAN'}),
+    'mpf_log': _tab(Z={'NINF'}, PINF={'PINF'}, NAN={'NAN'}, NINF={'!ComplexResult'}, **{'N-': {'!ComplexResult'}}),
+    'mpf_atan': _tab(Z={'Z'}, PINF={'N+'}, NINF={'N-'}, NAN={'NAN'}),
+    'mpf_cos': _tab(Z={'ONE'}, PINF={'NAN'}, NINF={'NAN'}, NAN={'NAN'}),
+    'mpf_sin': _tab(Z={'Z'}, PINF={'NAN'}, NINF={'NAN'}, NAN={'NAN'}),
+    'mpf_tan': _tab(Z={'Z'}, PINF={'NAN'}, NINF={'NAN'}, NAN={'NAN'}),
+    'mpf_cos_sin': _tab(Z={'(ONE, Z)'}, PINF={'(NAN, NAN)'}, NINF={'(NAN, NAN)'}, NAN={'(NAN, NAN)'}),
+    'mpf_cos_pi': _tab(Z={'ONE'}, PINF={'NAN'}, NINF={'NAN'}, NAN={'NAN'}),
+    'mpf_sin_pi': _tab(Z={'Z'}, PINF={'NAN'}, NINF={'NAN'}, NAN={'NAN'}),
+    'mpf_cosh': _tab(Z={'ONE'}, PINF={'PINF'}, NINF={'PINF'}, NAN={'NAN'}),
+    'mpf_sinh': _tab(Z={'Z'}, PINF={'PINF'}, NINF={'NINF'}, NAN={'NAN'}),
+    'mpf_tanh': _tab(Z={'Z'}, PINF={'ONE'}, NINF={'MONE'}, NAN={'NAN'}),
+    'mpf_cosh_sinh': _tab(PINF={'(PINF, PINF)'}, NINF={'(PINF, NINF)'}, NAN={'(NAN, NAN)'}),
+    'mpf_cbrt': _tab(Z={'Z'}, PINF={'PINF'}, NAN={'NAN'}),
+    'mpf_asin': _tab(Z={'Z'}, NAN={'NAN'}),
+    'mpf_acos': _tab(NAN={'NAN'}),
+}
+UNARY.update(ELEMENTARY)
 BINARY = {'mpf_add': spec_add, 'mpf_sub': spec_sub, 'mpf_mul': spec_mul, 'mpf_div': spec_div, 'mpf_mod': spec_mod}
+
+
+LIBELE = 'mpmath/libmp/libelefun.py'
+
+
+def check_pow_int_specials(run, ix, rule):
+    """x**n for x in {0, +inf, -inf, nan} and n in {-3 .. 3}: the entries that are not in doubt"""
+    lookup = make_lookup(ix)
+    table = {}
+    for n in (1, 2, 3):
+        table[('Z', n)] = {'Z'}
+        table[('PINF', n)] = {'PINF'}
+        table[('NINF', n)] = {'NINF'} if n & 1 else {'PINF'}
+        table[('NAN', n)] = {'NAN'}
+        table[('PINF', -n)] = {'Z'}
+        table[('NINF', -n)] = {'Z'}
+        table[('NAN', -n)] = {'NAN'}
+        table[('Z', -n)] = {'!ZeroDivisionError'}
+    table[('Z', 0)] = {'ONE'}
+    bad = []
+    n_ok = 0
+    for (k, n), want in sorted(table.items()):
+        r = mk(k, '_0')
+        got = outcomes(lookup, 'mpf_pow_int', [r, Int(n), Int(53), Int('round_nearest')], symclasses(r))
+        if 'ARITH' in got:
+            continue
+        if got <= want:
+            run.ok(rule)
+            n_ok += 1
+        else:
+            bad.append((k, n, sorted(got), sorted(want)))
+            run.rule(rule)['sites'] += 1
+            run.obligations += 1
+    if bad:
+        run.rule(rule)['failed'] += len(bad)
+        k, n, got, want = bad[0]
+        rel, f = owner(ix, 'mpf_pow_int')
+        run.findings.append(Finding(rule, rel, f.qualname, 'def mpf_pow_int (special values)',
+                                    'mpf_pow_int(%s, %d) can give %s; expected %s (%d entries wrong)'
+                                    % (k, n, got, want, len(bad)), line=f.lineno))
+    run.sample(rule, 'mpf_pow_int: %d special (base, exponent) combinations' % n_ok)
 
 
 def make_lookup(ix):
     def lookup(name):
-        f = ix.find_func(LIBMPF, name)
-        if f is None and name == 'mpf_mul':
-            f = ix.find_func(LIBMPF, 'python_mpf_mul')
-        return f.node if f is not None else None
+        for rel in (LIBMPF, LIBELE):
+            f = ix.find_func(rel, name)
+            if f is not None and f.parent is None:
+                return f.node
+        if name == 'mpf_mul':
+            return ix.find_func(LIBMPF, 'python_mpf_mul').node
+        return None
     return lookup
+
+
+def owner(ix, name):
+    for rel in (LIBMPF, LIBELE):
+        f = ix.find_func(rel, name) or ix.find_func(rel, 'python_' + name)
+        if f is not None:
+            return rel, f
+    raise AnalysisError('kernel %s vanished' % name)
 
 
 def outcomes(lookup, kernel, args, symclass):
@@ -178,6 +260,10 @@ def check_special_values(run, ix, rule, kernels):
                 continue
             raws = [mk(k, '_%d' % i) for i, k in enumerate(ops)]
             got = outcomes(lookup, kernel, raws + [Int(53), Int('round_nearest')], symclasses(*raws))
+            if 'ARITH' in got:
+                # the value at this class is produced by arithmetic (cosh(0) through exp): not decided here
+                run.stats.setdefault('special_values_undecided', []).append('%s%s' % (kernel, ops))
+                continue
             n += 1
             if got <= want:
                 run.ok(rule)
@@ -189,9 +275,9 @@ def check_special_values(run, ix, rule, kernels):
         if bad:
             run.rule(rule)['failed'] += len(bad)
             ops, got, want = bad[0]
-            f = ix.find_func(LIBMPF, kernel) or ix.find_func(LIBMPF, 'python_' + kernel)
+            rel, f = owner(ix, kernel)
             run.findings.append(Finding(
-                rule, LIBMPF, f.qualname, 'def %s (special values)' % kernel,
+                rule, rel, f.qualname, 'def %s (special values)' % kernel,
                 '%s%s can give %s; the special-value table requires %s (%d of %d operand-class combinations wrong)'
                 % (kernel, ops, got, want, len(bad), n), line=f.lineno))
         run.sample(rule, '%s: %d operand-class combinations against the special-value table' % (kernel, n))
